@@ -35,7 +35,7 @@ Section WithDigest.
         split_dot0 v = split_dot0 (H alg (o_bytes ob))
     | OXfer v items =>     (* the add_ok of the add it performs, in the world its existence query leaves *)
         let r := oids_exist H w (map it_oid items) in
-        add_ok H (snd r) (Some v) (xfer_new (fst r) items)
+        add_ok H (snd r) v (xfer_new (fst r) items)
     | _ => True
     end.
 
